@@ -513,6 +513,73 @@ def job_balance_sp(job, nx, reachable, reused=False, tseries=False):
         job.prove(f"{tag}/reach[path{k}]", pr.pc, expect="sat", elim=True)
 
 
+def _falling_table(n=400, p_lo=100.0, p_hi=6000.0):
+    """A thermodynamically consistent single-phase table whose diffusivity FALLS with pressure: z = 1, density ~ p,
+    compressibility 1/p, viscosity ~ p^2 (so alpha = 1/(c mu) ~ 1/p), pseudopressure the exact integral of 2p/(mu z)."""
+    import numpy as np
+    import pandas as pd
+    p = np.linspace(p_lo, p_hi, n)
+    mu = 0.02 * (p / 1000.0) ** 2
+    pp = 2 * 1000.0 ** 2 / 0.02 * np.log(p / p_lo)           # integral of 2p/(mu z) from p_lo
+    return pd.DataFrame({"pressure": p, "z-factor": np.ones(n), "density": 0.05 * p, "compressibility": 1.0 / p, "viscosity": mu, "pseudopressure": pp})
+
+
+def replay_diffusivity_ratio(model, nx=3):
+    """Real SinglePhaseReservoir on a consistent table whose diffusivity falls with pressure (the ratio alpha(m)/alpha(m_i)
+    is above 1 in the depleted zone): alpha_scaled against the fluid's own ratio, and the flux / in-place recovery gap on
+    a refinement ladder (it must shrink, as it does for tables whose diffusivity rises with pressure)."""
+    import warnings
+    import numpy as np
+    from bluebonnet.flow import FlowProperties, SinglePhaseReservoir
+    with warnings.catch_warnings():
+        warnings.simplefilter("ignore")
+        fluid = FlowProperties(_falling_table(), 5000.0)
+    r = SinglePhaseReservoir(20, 500.0, 5000.0, fluid)
+    m = np.linspace(float(fluid.m_scaled_func(500.0)), float(fluid.m_i), 9)
+    got = np.asarray(r.alpha_scaled(m), float)
+    want = np.asarray(fluid.alpha(m), float) / float(fluid.alpha(fluid.m_i))
+    if got.shape != want.shape or np.any(np.abs(got - want) > 1e-12 * np.abs(want)):
+        return True, {"what": f"SinglePhaseReservoir.alpha_scaled on a table whose diffusivity falls with pressure (z = 1, c = 1/p, viscosity ~ p^2): "
+                              f"{got.tolist()} vs the fluid's alpha(m)/alpha(m_i) = {want.tolist()}", "inputs": {"table": "z=1, c=1/p, mu~p^2, p_i=5000, p_f=500"}}
+    gaps = []
+    for n in (20, 80):
+        r = SinglePhaseReservoir(n, 500.0, 5000.0, fluid)
+        r.simulate(np.linspace(0, np.sqrt(0.3), 40 * n // 20 * n // 20 + 1) ** 2)
+        gaps.append(float(abs(np.asarray(r.recovery_factor(), float)[-1] - np.asarray(r.recovery_factor(density=True), float)[-1])))
+    bad = not gaps[1] < 0.6 * gaps[0]
+    return bad, {"what": f"falling-diffusivity table: |flux recovery - in-place recovery| at the end of the run for nx = 20, 80: {gaps}", "inputs": {"table": "z=1, c=1/p, mu~p^2"}}
+
+
+def job_diffusivity_ratio(job, nx):
+    """The balance between flux and in-place recovery rests on the step using the fluid's own diffusivity 1/(c mu): the
+    scaled diffusivity is alpha(m)/alpha(m_i) for every value the (uninterpreted, positive) diffusivity function takes -
+    also where the ratio is above 1 (diffusivity falling with pressure) or tiny."""
+    mod = load_reservoir()
+    job.encoded(mod, "SinglePhaseReservoir.alpha_scaled")
+    job.stub("fluid.alpha: uninterpreted positive function of scaled pseudopressure")
+    job.bound(nx=nx)
+
+    def run():
+        SS.reset_names()
+        fluid = FluidStub()
+        r = mod.SinglePhaseReservoir(Q(nx), fresh("pf"), fresh("pi", pos=True), fluid)
+        m = SymArray([fresh(f"m{j}") for j in range(nx)], "f8")
+        return r.alpha_scaled(m), m, fluid
+    rp = (replay_diffusivity_ratio, {"nx": nx})
+    for k, pr in enumerate(paths(job, run, [], max_paths=64)):
+        if pr.exc is not None:
+            job.errors.append(f"alpha_scaled raised {pr.exc!r}")
+            continue
+        got, m, fluid = pr.value
+        if not isinstance(got, SymArray) or len(got.d) != nx:
+            job.prove(f"diffusivity-ratio[nx={nx}]/one value per node[path{k}]", pr.pc, bound=f"nx={nx}", replay=rp)
+            continue
+        want = [fluid.alpha(x) / fluid.alpha(fluid.m_i) for x in m.d]
+        job.prove(f"diffusivity-ratio[nx={nx}]/alpha_scaled == alpha(m)/alpha(m_i) for any positive diffusivity values[path{k}]",
+                  pr.pc + [T.b_or(*[not_close(g, w, abs_tol=Fraction(0)) for g, w in zip(got.d, want)])], bound=f"nx={nx}, any positive alpha values", replay=rp)
+    job.prove(f"diffusivity-ratio[nx={nx}]/reach", [], expect="sat")
+
+
 def job_flux_is_boundary_derivative(job, nx):
     """Shared with C02-L5: the flux-mode recovery is FVF scale x trapezoid-in-time of the exact boundary
     derivative for a quadratic profile - the quantity whose in-place counterpart is the mass change."""
@@ -521,7 +588,7 @@ def job_flux_is_boundary_derivative(job, nx):
 
 
 # concrete replays run on the real code when the changed code uses something the engine does not model (harness.finish)
-FALLBACK = [(replay_ceiling_run, {}), (replay_ceiling_run, {"tdtype": "f8"}), (replay_balance_sp, {}), (replay_flux, {}), (replay_flux, {"cls": "IdealReservoir"})]
+FALLBACK = [(replay_diffusivity_ratio, {}), (replay_ceiling_run, {}), (replay_ceiling_run, {"tdtype": "f8"}), (replay_balance_sp, {}), (replay_flux, {}), (replay_flux, {"cls": "IdealReservoir"})]
 
 
 def jobs(tier):
@@ -537,6 +604,7 @@ def jobs(tier):
     for nx in ((3, 4) if tier == "quick" else (3, 4, 5, 6)):
         out.append((f"balance-sp-{nx}", lambda j, n=nx: job_balance_sp(j, n, False)))
         out.append((f"balance-sp-reach-{nx}", lambda j, n=nx: job_balance_sp(j, n, True)))
+    out.append(("diffusivity-ratio-3", lambda j: job_diffusivity_ratio(j, 3)))
     out.append(("balance-sp-reused-3", lambda j: job_balance_sp(j, 3, True, True)))
     out.append(("balance-sp-series-time-3", lambda j: job_balance_sp(j, 3, True, False, True)))
     if tier != "quick":
